@@ -20,12 +20,15 @@ ASSUMPTIONS = ["argparse's error path = SystemExit(2) after printing usage + mes
 TRUSTED = ["stdlib argparse (modelled fragment compared directly against it on every run)"]
 EXHAUSTIVE = {"quick": False, "thorough": False}
 MANIFEST = {
-    "text": ("Proof (partial): over the Lean model of the argparse engine and of get_arg_options/postprocess — every exit "
+    "text": ("Proof: over the Lean model of the argparse engine and of get_arg_options/postprocess — every exit "
              "status the engine produces other than for an explicit help request is 2 (no status 0, no other code) for "
              "EVERY argv; a missing required option, an unknown long option, a token that fails its type= conversion, a "
              "value outside choices and a wrong arity for a fixed-length tuple are each rejected with status 2 wherever "
              "they occur; the namespace only ever holds converted values (type soundness of stored items for every argv). "
-             "Kept visible: a heterogeneous-tuple option given twice raises IndexError (open finding, witness theorem). "
+             "No converter of the model can raise (never a traceback) for every well-formed table and every argv — full since the repair "
+             "b1a5942 of the parse_tuple call counter (a heterogeneous-tuple option given twice raised IndexError; kept as a "
+             "regression example, and the counter is proved to wrap: item k mod n); the only raising table is the ill-formed "
+             "closure over no item type (witness theorem), which simple-parsing never builds. "
              "The model is tied to the code by the end-to-end op fields.parse and, independently of simple-parsing, by "
              "engine.run against stdlib argparse; the property's clauses are evaluated on every real parse."),
     "note": ("Trusted: Lean kernel + standard axioms; harness. Modelled not verified: argparse 3.12.1 optional-argument "
@@ -356,20 +359,4 @@ def shrink(case):
         yield {"op": case["op"], "case": dict(c, argv=c["argv"][:i] + c["argv"][i + 1:], mutation=c["mutation"] if c["mutation"] in ("random",) else "random")}
 
 
-def _tuple_twice(case, obs, fail):
-    """D8: a heterogeneous Tuple field whose option occurs >= 2 times in one command line: IndexError from the
-    parse_tuple closure's call counter."""
-    if fail.get("clause") != "no-traceback" or obs.get("exc") != "IndexError":
-        return False
-    c = case["case"]
-    for f in c["fields"]:
-        inner = f["ty"]["inner"] if f["ty"]["k"] == "opt" else f["ty"]
-        if inner["k"] == "tuple" and len({str(it) for it in inner["items"]}) > 1:
-            opt = ("-" if len(f["name"]) == 1 else "--") + f["name"]
-            n = sum(1 for a in c["argv"] if a == opt or a.startswith(opt + "="))
-            if n >= 2:
-                return True
-    return False
-
-
-FINDINGS = {"C04-hetero-tuple-option-twice": _tuple_twice}
+FINDINGS = {}
